@@ -26,6 +26,11 @@ EVIDENCE = os.path.join(VERIF, "evidence")
 KNOWN = os.path.join(VERIF, "known_findings.txt")
 
 TRACE_JAVA_OPTS = "-Xss1g -Dtlc2.tool.queue.IStateQueue=StateDeque"
+# The `tlc` wrapper on PATH hard-wires the parallel collector, which spends most of its time in
+# the kernel on this VM (measured: 28 s vs 8 s for the same run); call the same jar with the
+# serial collector instead.
+TLA_CP = "/opt/veriftools/tla/tla2tools.jar:/opt/veriftools/tla/CommunityModules-deps.jar"
+TLC = ["java", "-XX:+UseSerialGC", "-Xms1g", "-Xmx16g", "-Xmn768m", "-cp", TLA_CP, "tlc2.TLC"]
 
 
 class ToolError(Exception):
@@ -94,8 +99,8 @@ class Ctx:
         -simulate.  Returns dict(states, generated, emitted=<path or None>)."""
         cfg = cfg or module + ".cfg"
         meta = os.path.join(self.work, "tlc-" + name)
-        cmd = ["tlc", "-workers", str(workers), "-metadir", meta, "-cleanup", "-noGenerateSpecTE",
-               "-config", cfg]
+        cmd = TLC + ["-workers", str(workers), "-metadir", meta, "-cleanup", "-noGenerateSpecTE",
+                     "-config", cfg]
         if sim:
             cmd += ["-simulate", "num=%d" % sim[0], "-depth", str(sim[1]), "-seed", str(self.seed)]
             self.exhaustive = False
@@ -246,9 +251,9 @@ class Ctx:
         n_events = sum(1 for _ in open(trace_file))
         if n_events == 0:
             raise ToolError("empty trace " + trace_file)
-        cmd = ["tlc", "-workers", "1", "-metadir", meta, "-cleanup", "-noGenerateSpecTE", "-config", cfg,
-               module + ".tla"]
-        env = {"TRACE": trace_file, "JAVA_TOOL_OPTIONS": TRACE_JAVA_OPTS}
+        cmd = TLC[:1] + TRACE_JAVA_OPTS.split() + TLC[1:] + ["-workers", "1", "-metadir", meta, "-cleanup",
+                                                             "-noGenerateSpecTE", "-config", cfg, module + ".tla"]
+        env = {"TRACE": trace_file}
         rc, out, dt = sh(cmd, cwd=SPEC, env=env, timeout=timeout)
         shutil.rmtree(meta, ignore_errors=True)
         with open(os.path.join(self.work, "trace-%s.log" % name), "w") as f:
@@ -289,6 +294,14 @@ class Ctx:
             self.violations.append({"what": what, "key": "trace|%s|%s" % (module, name), "site": "trace|" + module,
                                     "replay": path})
         return what is None
+
+    def record_and_trace(self, name, binary, rec_args, module, n_runs, cfg=None, timeout=1800):
+        """impl -> spec in one go: let the harness record a trace, then validate it."""
+        tr = os.path.join(self.work, "trace-%s.ndjson" % name)
+        rc, out, _ = sh([binary] + rec_args + ["--out", tr], timeout=timeout)
+        if rc != 0:
+            raise ToolError("recording %s failed: %s" % (name, out[-800:]))
+        return self.trace(name, module, tr, cfg=cfg, n_runs=n_runs, timeout=timeout)
 
     # ------------------------------------------------------------- plumbing
     def save_replay(self, obj):
